@@ -327,7 +327,8 @@ func (s *scope) factCons(pr *proof, f Fact) {
 // function.
 func (s *scope) blockFacts(pr *proof, blk *ssa.BasicBlock) {
 	ff := s.b.p.Facts(s.fn)
-	for _, f := range ff.NC(blk) {
+	// value semantics: facts about earlier events on re-evaluated operands are left out (NCv)
+	for _, f := range ff.NCv(blk) {
 		s.factCons(pr, f)
 		// a merged boolean (x := a && b; switch { case a && b: ... }): one case per way it can
 		// have got its value
@@ -949,7 +950,7 @@ func (s *scope) phiBlockSplit(pr *proof, blk *ssa.BasicBlock) {
 				}
 			}
 		}
-		for _, f := range ff.NC(pred) {
+		for _, f := range ff.NCv(pred) {
 			s.factCons(sub, f)
 		}
 		if ef, ok := edgeFact(pred, blk); ok {
